@@ -2,7 +2,7 @@
 import json
 import os
 
-from common import Check, log, tool_error
+from common import nl_lines, Check, log, tool_error
 from l1 import apply_l1
 from common import CACHE, ensure_oracle, run_harness
 from l3 import l3_run
@@ -50,7 +50,25 @@ def C13(chk):
 
 
 # --------------------------------------------------------------------------------- L1-only parts
+def order_sweep(chk):
+    """classification of every value is a function of the value only: six call orders, aliases above U+10FFFF, 8 threads"""
+    out, t = run_harness(["ordersweep", "--seed", str(chk.seed)])
+    osum = None
+    for line in out.splitlines():
+        d = json.loads(line)
+        if "summary" in d:
+            osum = d["summary"]
+        elif "problem" in d:
+            chk.violation("classification depends on the calls made before / on truncated bits of the value: %s" % json.dumps(d["problem"], sort_keys=True)[:400],
+                          {"layer": "sweep", "case": d["problem"]})
+    if osum is None:
+        tool_error("ordersweep gave no summary")
+    chk.add_part("order sweep", dict(osum, wall_s=round(t, 1)))
+    chk.cov["evaluations"] += osum["calls"]
+
+
 def C14(chk):
+    order_sweep(chk)
     apply_l1(chk, ["id", "ff", "ns"], full32=(chk.tier == "thorough"), nontrivial_key="sigs")
     if chk.tier == "thorough":
         import selftest
@@ -161,6 +179,7 @@ def C06(chk):
     profiles_mc(chk, "nick-hangul", ["jamo", "jamoV", "hsyl", "jamoT", "hcj", "a", "OGH", "SP"], n, ["NICK"], ops, insts)
     profiles_mc(chk, "nick-nfkc", ["e", "acute", "Eac", "cedil", "SP", "rom4", "angst", "hy"], n, ["NICK"], ops, insts)
     profiles_mc(chk, "nick-latin1", ["micro", "sup2", "ordm", "a", "SP", "diaer", "two"], n, ["NICK"], ops, insts)
+    apply_l1(chk, ["nsp"], nontrivial_key="zs")
     l3_run(chk, "nickname-limits", driver="limits", per_string=2, kinds=["enforce"], profiles=["NICK"], seed_offset=5)
     l3_run(chk, "nickname", strings=500 if q else 6000, per_string=3, kinds=["enforce", "enforce", "prepare"], profiles=["NICK"], max_len=10)
     chk.cov["exhaustive"] = True
@@ -206,6 +225,8 @@ def C12(chk):
     q = chk.tier == "quick"
     n = 5 if q else 6
     insts = (0,) if q else (0, 1)
+    profiles_mc(chk, "spaces-controls", ["SP", "NBSP", "TAB", "a", "han", "LSEP"], n, ["NICK", "OPQ"],
+                ["additional_mapping_rule"], insts, invariants=["Agree", "MappingsAgree", "MappingsIdempotent", "OnlySpacesChange"])
     profiles_mc(chk, "spaces", ["SP", "NBSP", "OGH", "a", "eac", "han", "emo"], n, ["NICK", "OPQ"],
                 ["additional_mapping_rule"], insts, invariants=["Agree", "MappingsAgree", "MappingsIdempotent", "OnlySpacesChange"])
     profiles_mc(chk, "spaces-enforce", ["SP", "NBSP", "ISP", "a", "eac", "emo"], n - 1, ["NICK", "OPQ"], ["enforce"], insts)
@@ -313,6 +334,8 @@ def C07(chk):
                harness_args=["--forms"])
     generic_mc(chk, "MC_Compare", "normalization", ["e", "acute", "Eac", "angst", "rom4", "dotI", "diaer"], {"MaxLen": 2, "Profs": profs}, invs_t, insts,
                harness_args=["--forms"])
+    generic_mc(chk, "MC_Compare", "case-then-nfc", ["capJ", "caron", "dotI", "cedil", "a", "capH", "macronb"], {"MaxLen": 2, "Profs": profs}, invs_t, (0,),
+               harness_args=["--forms"])
     generic_mc(chk, "MC_Compare", "latin1-compat", ["micro", "mu", "sup2", "two", "ordm", "o", "A"], {"MaxLen": 2, "Profs": profs}, invs_t, (0,),
                harness_args=["--forms"])
     generic_mc(chk, "MC_Compare", "sigma", ["Sig", "GRK", "grk", "a", "A", "SP"], {"MaxLen": n, "Profs": profs}, invs, (0,),
@@ -395,7 +418,7 @@ def C08(chk):
     out, t = run_harness(["c08sweep", "--oracle", ensure_oracle(), "--seed", str(chk.seed)] + (["--pairs-small"] if q else ["--pairs"]))
     summary = None
     n_kf = 0
-    for line in out.splitlines():
+    for line in nl_lines(out):
         d = json.loads(line)
         if "summary" in d:
             summary = d["summary"]
@@ -434,7 +457,7 @@ def C01(chk):
     out, t = run_harness(["c01sweep", "--oracle", ensure_oracle(), "--seed", str(chk.seed), "--max-len", "4" if q else "6",
                           "--random", "20000" if q else "300000"])
     summary = None
-    for line in out.splitlines():
+    for line in nl_lines(out):
         d = json.loads(line)
         if "summary" in d:
             summary = d["summary"]
@@ -566,7 +589,7 @@ def C16(chk):
     # (2b) history independence of classification: every scalar value in six different call orders and on 8 threads
     out, t = run_harness(["ordersweep", "--seed", str(chk.seed)])
     osum = None
-    for line in out.splitlines():
+    for line in nl_lines(out):
         d = json.loads(line)
         if "summary" in d:
             osum = d["summary"]
